@@ -1940,7 +1940,10 @@ class t2data(object):
         if 'connection' in self.short_output:
             self.history_connection = self.short_output['connection'][:]
         if 'generator' in self.short_output:
-            self.history_generator = self.short_output['generator'][:]
+            # TOUGH2 generator history (GOFT) is specified by block:
+            self.history_generator = [self.grid.block[gen.block]
+                                      if gen.block in self.grid.block else gen.block
+                                      for gen in self.short_output['generator']]
         self.short_output = {}
 
     def convert_history_to_short(self):
@@ -1956,7 +1959,8 @@ class t2data(object):
             cons = [con for con in self.history_connection if isinstance(con, t2connection)]
             if cons: self.short_output['connection'] = cons
         if self.history_generator:
-            gens = [gen for gen in self.history_generator if isinstance(gen, t2generator)]
+            blknames = [blk.name for blk in self.history_generator if isinstance(blk, t2block)]
+            gens = [gen for gen in self.generatorlist if gen.block in blknames]
             if gens: self.short_output['generator'] = gens
         self.history_block = []
         self.history_connection = []
